@@ -4,12 +4,17 @@ import (
 	"context"
 	"errors"
 	"fmt"
+	"os"
+	"path/filepath"
 	"reflect"
 	"strings"
 	"sync"
+	"sync/atomic"
 	"time"
 
 	"github.com/vimeo/dials"
+	"github.com/vimeo/dials/ez"
+	stdflagsrc "github.com/vimeo/dials/sources/flag"
 	"github.com/vimeo/dials/sourcewrap"
 
 	"verifharness/conc"
@@ -23,6 +28,7 @@ func init() {
 		Rule: "Delay state machine checked against real Dials instances for all 4 combinations of DelayInitialVerification x CallGlobalCallbacksAfterVerificationEnabled, with no watcher / a Blank / fake watchers. " +
 			"Sequential walks (scripted edge coverage + seeded random walks of 4-25 steps) over {valid update, invalid update, ill-typed update, source-reported error, EnableVerification (failing, failing again, succeeding, again)}: after the walk the exact sequence of global callback deliveries, the Verify call log (receiver pointer, logical time), every EnableVerification result and the install log are compared with the state machine " +
 			"(Verify never before the first EnableVerification call; enable verifies exactly the installed config and returns it with its serial; failure leaves the delay in force; after success every install was verified first; OnNewConfig and source errors withheld iff delay-in-force and suppress option, delivered otherwise). " +
+			"ez episodes: one call of an ez entry point (JSON/YAML/TOML/by extension; private flag set; with and without WatchConfigFile; file valid, failing Verify, rescued or broken by a flag, missing, malformed, or no path) with global OnNewConfig/OnWatchedError callbacks; version stores (mon.stored hook), Verify calls and callback calls share one logical clock; after a state-based fence of the callback goroutine (its exit hook, or a registration round trip while it lives) no OnNewConfig call may be for a version installed before the first Verify call (= before EnableVerification: delay in force, suppress option set by ez), whether the entry point succeeds or fails; with watching, one later file change must be announced. " +
 			"Concurrent walks: reporters race EnableVerification calls and the history is checked with porcupine against the model extended with Enable (an invalid update installs iff it linearizes before the successful enable). " +
 			"distinct_nontrivial = distinct (options, source kind, step-kind sequence) signatures containing an EnableVerification and at least one update or source error.",
 		Assumptions: []string{
@@ -30,8 +36,8 @@ func init() {
 		},
 		MinDistinct: map[string]int{"quick": 800, "thorough": 60000},
 		MinCounters: map[string]map[string]int64{
-			"quick":    {"walks_judged": 300, "enable_calls_judged": 400, "global_deliveries_compared": 800, "withheld_states_observed": 100, "linearizable_histories": 40},
-			"thorough": {"walks_judged": 200000, "enable_calls_judged": 300000},
+			"quick":    {"walks_judged": 300, "enable_calls_judged": 400, "global_deliveries_compared": 800, "withheld_states_observed": 100, "linearizable_histories": 40, "ez_episodes_judged": 60, "ez_installs_observed": 40, "ez_callback_goroutine_exits_observed": 60},
+			"thorough": {"walks_judged": 200000, "enable_calls_judged": 300000, "ez_episodes_judged": 10000, "ez_installs_observed": 5000},
 		},
 		Plan: func(tier string) fw.Plan {
 			if tier == "thorough" {
@@ -55,6 +61,8 @@ func runC09(w *fw.Worker) {
 	w.Cases(func(i int, r *fw.Rand) {
 		g := i*w.Shards + w.Shard
 		switch {
+		case g%17 == 8:
+			c09Ez(w, i, r)
 		case g%5 == 4:
 			c09Concurrent(w, i, r)
 		case g%7 == 3:
@@ -716,4 +724,340 @@ func c09AfterMonitorExit(w *fw.Worker, i int, r *fw.Rand) {
 		}
 	}
 	w.Distinct(fmt.Sprintf("after-exit|%s|%v", how, invalid))
+}
+
+// ---- the ez entry points: they run dials with the delay in force and the suppress option set, plug the config file
+// into a Blank (a re-stack while the delay is in force) and only then call EnableVerification
+
+type c09EzVerify struct {
+	t   int64
+	cfg *c09EzCfg
+	val int
+	err bool
+}
+
+type c09EzInstall struct {
+	t      int64
+	serial uint64
+	cfg    *c09EzCfg
+	val    int
+}
+
+type c09EzNew struct {
+	t        int64
+	old, new *c09EzCfg
+	oldVal   int
+	newVal   int
+	newMark  string
+}
+
+// c09EzRec is the log of one ez episode: Verify calls, version stores (mon.stored hook) and global callback calls, on
+// one logical clock.
+type c09EzRec struct {
+	clock    atomic.Int64
+	mu       sync.Mutex
+	verifies []c09EzVerify
+	installs []c09EzInstall
+	news     []c09EzNew
+	errs     []string
+	// pathAlwaysSet: ConfigPath reports true even for an empty path (the common 'return c.Path, true' pattern)
+	pathAlwaysSet bool
+}
+
+type c09EzCfg struct {
+	Path string `dials:"ezpath"`
+	Val  int    `dials:"ezval"`
+	Mark string `dials:"ezmark"`
+	rec  *c09EzRec
+}
+
+var errC09EzInvalid = errors.New("harness: ez config invalid (ezval < 0)")
+
+// ConfigPath implements ez.ConfigWithConfigPath.
+func (c *c09EzCfg) ConfigPath() (string, bool) {
+	if c.rec != nil && c.rec.pathAlwaysSet {
+		return c.Path, true
+	}
+	return c.Path, c.Path != ""
+}
+
+// Verify implements dials.VerifiedConfig.
+func (c *c09EzCfg) Verify() error {
+	bad := c.Val < 0
+	if r := c.rec; r != nil {
+		r.mu.Lock()
+		r.verifies = append(r.verifies, c09EzVerify{t: r.clock.Add(1), cfg: c, val: c.Val, err: bad})
+		r.mu.Unlock()
+	}
+	if bad {
+		return fmt.Errorf("%w: %d", errC09EzInvalid, c.Val)
+	}
+	return nil
+}
+
+func c09EzRender(format string, val int, mark string) []byte {
+	switch format {
+	case "json":
+		return []byte(fmt.Sprintf("{\"ezval\": %d, \"ezmark\": %q}\n", val, mark))
+	case "toml":
+		return []byte(fmt.Sprintf("ezval = %d\nezmark = %q\n", val, mark))
+	}
+	return []byte(fmt.Sprintf("ezval: %d\nezmark: %q\n", val, mark))
+}
+
+// c09Ez: one call of an ez entry point with global callbacks, with and without file watching, over files that are valid,
+// fail Verify (alone, or only once a flag overrides them), are rescued by a flag, are missing or malformed, or with no
+// path at all. ez keeps the delay in force with the suppress option set until it has called EnableVerification, so a
+// version installed before the first Verify call (Verify is never called before EnableVerification) was installed while
+// global callbacks are withheld: OnNewConfig must never be called for it, whether the entry point then succeeds or fails.
+// The callback goroutine is fenced state-based (its exit hook after the monitor has gone, or a registration round trip
+// while it lives) before the logs are judged.
+func c09Ez(w *fw.Worker, i int, r *fw.Rand) {
+	format := []string{"json", "yaml", "toml"}[r.Intn(3)]
+	byExt := r.Chance(30)
+	watch := r.Chance(30)
+	mode := []string{"valid", "valid", "valid", "verify-fails", "verify-fails", "flag-rescues", "flag-breaks", "missing-file", "malformed-file", "no-path"}[r.Intn(10)]
+	pathFrom := []string{"default", "flag"}[r.Intn(2)]
+	rec := &c09EzRec{pathAlwaysSet: mode != "no-path" && r.Chance(25)}
+	path := filepath.Join(w.Scratch, fmt.Sprintf("c09ez_%d_%d.%s", w.Shard, i, format))
+	fileVal, flagVal := 100+r.Intn(800), 1000+r.Intn(800)
+	var argv []string
+	cfg := &c09EzCfg{Val: 1 + r.Intn(50), rec: rec}
+	switch mode {
+	case "verify-fails":
+		fileVal = -fileVal
+	case "flag-rescues":
+		fileVal = -fileVal
+		argv = append(argv, fmt.Sprintf("--ezval=%d", flagVal))
+	case "flag-breaks":
+		flagVal = -flagVal
+		argv = append(argv, fmt.Sprintf("--ezval=%d", flagVal))
+	}
+	wantErr := mode == "verify-fails" || mode == "flag-breaks" || mode == "missing-file" || mode == "malformed-file"
+	if mode != "no-path" {
+		if pathFrom == "default" {
+			cfg.Path = path
+		} else {
+			argv = append(argv, "--ezpath="+path)
+		}
+	}
+	switch mode {
+	case "missing-file", "no-path":
+	case "malformed-file":
+		os.WriteFile(path, []byte("{{{ : not valid in any format ]]]\n\t- x"), 0o644)
+	default:
+		os.WriteFile(path, c09EzRender(format, fileVal, "file-1"), 0o644)
+	}
+	// (the file stays until the scratch directory goes: removing a file that may still be watched is C17's subject)
+	desc := map[string]any{"mode": "ez:" + mode, "format": format, "by_extension": byExt, "watch": watch, "path_from": pathFrom, "argv": argv, "path_always_reported_set": rec.pathAlwaysSet}
+	w.BeginDesc(i, fmt.Sprintf("%v", desc))
+	fs, ferr := stdflagsrc.NewSetWithArgs(stdflagsrc.DefaultFlagNameConfig(), cfg, argv)
+	if ferr != nil {
+		w.Violation(i, "config-failed", "flag registration: "+ferr.Error(), desc)
+		return
+	}
+	params := ez.Params[c09EzCfg]{WatchConfigFile: watch, FlagSource: fs,
+		OnNewConfig: func(_ context.Context, old, nw *c09EzCfg) {
+			n := c09EzNew{t: rec.clock.Add(1), old: old, new: nw}
+			if old != nil {
+				n.oldVal = old.Val
+			}
+			if nw != nil {
+				n.newVal, n.newMark = nw.Val, nw.Mark
+			}
+			rec.mu.Lock()
+			rec.news = append(rec.news, n)
+			rec.mu.Unlock()
+		},
+		OnWatchedError: func(_ context.Context, err error, _, _ *c09EzCfg) {
+			rec.mu.Lock()
+			rec.errs = append(rec.errs, err.Error())
+			rec.mu.Unlock()
+		},
+	}
+	conc.InstallHooks()
+	cs := conc.NewScenario(context.Background())
+	defer cs.Cancel()
+	cbExit := make(chan struct{})
+	var exitOnce sync.Once
+	cs.Hook = func(name string, _ context.Context, args []any) {
+		switch name {
+		case "mon.stored":
+			if len(args) >= 3 {
+				serial, _ := args[1].(uint64)
+				if c, ok := args[2].(*c09EzCfg); ok && c != nil {
+					in := c09EzInstall{t: rec.clock.Add(1), serial: serial, cfg: c, val: c.Val}
+					rec.mu.Lock()
+					rec.installs = append(rec.installs, in)
+					rec.mu.Unlock()
+				}
+			}
+		case "cb.exit":
+			exitOnce.Do(func() { close(cbExit) })
+		}
+	}
+	ctx := cs.Ctx
+	var d *dials.Dials[c09EzCfg]
+	var err error
+	switch {
+	case byExt:
+		d, err = ez.FileExtensionDecoderConfigEnvFlag(ctx, cfg, params)
+	case format == "json":
+		d, err = ez.JSONConfigEnvFlag(ctx, cfg, params)
+	case format == "toml":
+		d, err = ez.TOMLConfigEnvFlag(ctx, cfg, params)
+	default:
+		d, err = ez.YAMLConfigEnvFlag(ctx, cfg, params)
+	}
+	desc["ez_error"] = fmt.Sprint(err)
+	w.Count("ez_calls", 1)
+	if err == nil && d == nil {
+		w.Violation(i, "ez:nil-dials-without-error", "the entry point returned (nil, nil)", desc)
+		return
+	}
+	if err == nil && d.View().Val < 0 {
+		w.Violation(i, "ez:succeeded-although-the-installed-config-fails-verify", fmt.Sprintf("the entry point returned no error; the visible config has ezval=%d, which Verify rejects", d.View().Val), desc)
+		return
+	}
+	if err != nil && !wantErr {
+		// not C09's to judge in general (C18 does); but a Verify failure here means Verify ran on a config that is valid
+		// once the file/flags are in, i.e. too early
+		if errors.Is(err, errC09EzInvalid) {
+			w.Violation(i, "ez:verify-failed-on-a-setup-whose-full-stack-is-valid", err.Error(), desc)
+			return
+		}
+		w.Note("c09 ez: unexpected entry-point error (not judged here): " + err.Error())
+	}
+	alive := err == nil && watch
+	rewritten, converged := false, false
+	newVal := 5000 + r.Intn(1000)
+	fence := func() bool {
+		fctx, cancel := context.WithTimeout(ctx, 10*time.Second)
+		defer cancel()
+		_, tok := d.ViewVersion()
+		un := d.RegisterCallback(fctx, tok, func(context.Context, *c09EzCfg, *c09EzCfg) {})
+		return un != nil && un(fctx)
+	}
+	if alive {
+		// the instance keeps watching: fence the callback goroutine, then change the file once (verification is on and
+		// the delay is over: that version is announced)
+		if !fence() {
+			w.Inconclusive(i, "ez: callback fence (register/unregister round trip) failed on a watching instance")
+			return
+		}
+		if mode != "flag-rescues" && mode != "no-path" { // (a flag overrides the file's leaf / there is no file)
+			rewritten = true
+			os.WriteFile(path, c09EzRender(format, newVal, "file-2"), 0o644)
+			converged = conc.WaitUntil(func() bool { v := d.View(); return v.Val == newVal && v.Mark == "file-2" }, 15*time.Second)
+			if converged {
+				w.Count("ez_watched_rewrites_converged", 1)
+				// the version is visible before the monitor announces it: wait for the announcement to be handled; if it
+				// does not show up, the monitor must be back idle in its loop (it announces before it takes the next
+				// message) and a registration round trip must have passed the callback goroutine's queue before the
+				// absence is judged
+				delivered := func() bool {
+					rec.mu.Lock()
+					defer rec.mu.Unlock()
+					for _, n := range rec.news {
+						if n.newVal == newVal && n.newMark == "file-2" {
+							return true
+						}
+					}
+					return false
+				}
+				if !conc.WaitUntil(delivered, 10*time.Second) {
+					s1, _ := monitorState()
+					time.Sleep(300 * time.Millisecond)
+					s2, _ := monitorState()
+					if s1 != "idle" || s2 != "idle" || !fence() {
+						w.Inconclusive(i, "ez: announcement of the watched change not observed; monitor state "+s1+"/"+s2)
+						return
+					}
+				}
+			} else {
+				w.Count("ez_watched_rewrites_not_observed_in_time", 1)
+			}
+		}
+		cs.Cancel()
+	} else if err != nil {
+		// a failed entry point leaves shutting down to the caller's context
+		cs.Cancel()
+	}
+	// without watching the entry point itself has called Done on the Blank: the monitor goes away and the callback
+	// goroutine handles what is queued, then exits
+	select {
+	case <-cbExit:
+		w.Count("ez_callback_goroutine_exits_observed", 1)
+	case <-time.After(15 * time.Second):
+		g := dialsGoroutines([]string{").monitor(", ").runCBs("})
+		if len(g) > 0 && !watch && err == nil {
+			time.Sleep(300 * time.Millisecond)
+			if g2 := dialsGoroutines([]string{").monitor(", ").runCBs("}); len(g2) > 0 {
+				w.Note("c09 ez: background goroutines still alive 15s after a non-watching entry point returned (C08 judges shutdown)")
+			}
+		}
+		w.Inconclusive(i, "ez: exit of the callback goroutine not observed")
+		return
+	}
+	rec.mu.Lock()
+	verifies := append([]c09EzVerify(nil), rec.verifies...)
+	installs := append([]c09EzInstall(nil), rec.installs...)
+	news := append([]c09EzNew(nil), rec.news...)
+	nErrs := len(rec.errs)
+	rec.mu.Unlock()
+	firstVerify := int64(1) << 62
+	if len(verifies) > 0 {
+		firstVerify = verifies[0].t
+	}
+	w.Count("ez_installs_observed", int64(len(installs)))
+	w.Count("ez_watched_error_calls_recorded", int64(nErrs))
+	desc["onnewconfig_calls"] = fmt.Sprintf("%+v", func() (out []string) {
+		for _, n := range news {
+			out = append(out, fmt.Sprintf("t=%d old.ezval=%d new.ezval=%d new.ezmark=%q", n.t, n.oldVal, n.newVal, n.newMark))
+		}
+		return
+	}())
+	for _, n := range news {
+		var in *c09EzInstall
+		for k := range installs {
+			if installs[k].cfg == n.new {
+				in = &installs[k]
+			}
+		}
+		if in == nil {
+			w.Count("ez_deliveries_without_install_record", 1)
+			continue
+		}
+		w.Count("global_deliveries_compared", 1)
+		if in.t < firstVerify {
+			what := "the entry point then succeeded"
+			if err != nil {
+				what = "the entry point then failed: " + err.Error()
+			}
+			w.Violation(i, "ez:onnewconfig-delivered-for-a-version-installed-while-the-delay-was-in-force", fmt.Sprintf("OnNewConfig(old.ezval=%d, new.ezval=%d) was called for version %d, which was installed before the first Verify call, i.e. before EnableVerification (delay in force, global callbacks withheld); %s", n.oldVal, n.newVal, in.serial, what), desc)
+			return
+		}
+	}
+	// a version installed during the set-up was withheld
+	for _, in := range installs {
+		if in.t < firstVerify {
+			w.Count("withheld_states_observed", 1)
+		}
+	}
+	if converged {
+		// delay over: the watched change must have been announced
+		found := false
+		for _, n := range news {
+			if n.newVal == newVal && n.newMark == "file-2" {
+				found = true
+			}
+		}
+		if !found {
+			w.Violation(i, "ez:onnewconfig-not-delivered-after-verification-was-enabled", fmt.Sprintf("the watched file change (ezval=%d) became visible after the entry point returned, but OnNewConfig was never called for it (%d calls in total)", newVal, len(news)), desc)
+			return
+		}
+		w.Count("global_deliveries_compared", 1)
+	}
+	w.Count("ez_episodes_judged", 1)
+	w.Distinct(fmt.Sprintf("ez|%s|%s|%v|%v|%s|%v|%v", mode, format, byExt, watch, pathFrom, rec.pathAlwaysSet, rewritten))
 }
